@@ -23,13 +23,16 @@ RECURSIVE Gcd(_, _)
 Gcd(a, b) == IF b = 0 THEN a ELSE Gcd(b, a % b)
 R(n, d) == LET g == Gcd(n, d) IN <<n \div g, d \div g>>          \* n >= 0, d > 0
 RInt(n) == <<n, 1>>
-RAdd(x, y) == R(x[1] * y[2] + y[1] * x[2], x[2] * y[2])
+RAdd(x, y) == LET g == Gcd(x[2], y[2])                            \* over the least common denominator
+              IN R(x[1] * (y[2] \div g) + y[1] * (x[2] \div g), (x[2] \div g) * y[2])
 RMul(x, y) == LET a == R(x[1], y[2])                               \* cross-cancel first: keeps the products small
                   b == R(y[1], x[2])
               IN <<a[1] * b[1], a[2] * b[2]>>
 RDiv(x, y) == RMul(x, <<y[2], y[1]>>)                              \* y > 0
-RLe(x, y) == x[1] * y[2] <= y[1] * x[2]
-RLt(x, y) == x[1] * y[2] < y[1] * x[2]
+RLe(x, y) == LET g == Gcd(x[2], y[2]) IN x[1] * (y[2] \div g) <= y[1] * (x[2] \div g)
+RLt(x, y) == LET g == Gcd(x[2], y[2]) IN x[1] * (y[2] \div g) < y[1] * (x[2] \div g)
+\* x <= t for an integer t, without multiplying
+RLeInt(x, t) == x[1] \div x[2] < t \/ (x[1] \div x[2] = t /\ x[1] % x[2] = 0)
 RMin(x, y) == IF RLe(x, y) THEN x ELSE y
 ROne == <<1, 1>>
 
@@ -116,10 +119,10 @@ CNext == \E vol \in [Groups -> Vols] : EndInterval(vol)
 CSpec == CInit /\ [][CNext]_cvars
 
 LastTotal == SumOver(last, Groups)
-InUnit == \A g \in present : rate[g][1] > 0 /\ RLe(rate[g], ROne)
+InUnit == \A g \in present : rate[g][1] > 0 /\ RLeInt(rate[g], 1)
 AllOneBelowTarget == LastTotal <= target => \A g \in Groups : rate[g] = ROne
 Budget == LastTotal > target =>
-            RLe(RSumOver([g \in present |-> RMul(Avg(g), rate[g])], present), RInt(target))
+            RLeInt(RSumOver([g \in present |-> RMul(Avg(g), rate[g])], present), target)
 Monotone == LastTotal > target =>
             \A g \in present : \A h \in present : RLe(Avg(g), Avg(h)) => RLe(rate[h], rate[g])
 RunningMean == \A g \in present : cnt[g] >= 1 /\ cnt[g] <= 16 /\ sum[g] >= cnt[g]
